@@ -930,17 +930,24 @@ pixman_image_fill_boxes (pixman_op_t           op,
                     return FALSE;
             }
 
+            pixman_bool_t filled = TRUE;
+
             rects = pixman_region32_rectangles (&fill_region, &n_rects);
-            for (j = 0; j < n_rects; ++j)
+            for (j = 0; j < n_rects && filled; ++j)
             {
                 const pixman_box32_t *rect = &(rects[j]);
-                pixman_fill (dest->bits.bits, dest->bits.rowstride, PIXMAN_FORMAT_BPP (dest->bits.format),
-                             rect->x1, rect->y1, rect->x2 - rect->x1, rect->y2 - rect->y1,
-                             pixel);
+                filled = pixman_fill (dest->bits.bits, dest->bits.rowstride, PIXMAN_FORMAT_BPP (dest->bits.format),
+                                      rect->x1, rect->y1, rect->x2 - rect->x1, rect->y2 - rect->y1,
+                                      pixel);
             }
 
             pixman_region32_fini (&fill_region);
-            return TRUE;
+
+            /* pixman_fill() declines when no implementation can fill this
+             * depth directly: composite a solid image in that case.
+             */
+            if (filled)
+                return TRUE;
         }
     }
 
